@@ -8,9 +8,11 @@
 #include "../sim/super.h"
 #include "../world/bigtiff.h"
 
+#include <algorithm>
 #include <stdio.h>
 #include <stdlib.h>
 #include <string.h>
+#include <sys/mman.h>
 #include <sys/stat.h>
 #include <unistd.h>
 
@@ -55,7 +57,75 @@ struct FrameM
     int type;
     uint64_t frame_id, hw_id, ts_hw, ts_rt;
     std::vector<uint8_t> pixels; // exactly w*h*bpp bytes
+    // a huge frame: big_n zero bytes except the marks (position, value)
+    uint64_t big_n = 0;
+    std::vector<std::pair<uint64_t, uint8_t>> marks;
 };
+
+// expected non-zero content of a (huge) file: everything else reads as zero
+struct Ext
+{
+    uint64_t off;
+    std::vector<uint8_t> bytes;
+};
+
+struct SimBytes : bigtiff::Bytes
+{
+    std::string path;
+    explicit SimBytes(const std::string& p)
+      : path(p)
+    {
+    }
+    uint64_t size() const override
+    {
+        uint64_t n = simfs::size(path);
+        return n == UINT64_MAX ? 0 : n;
+    }
+    void read(uint64_t off, uint64_t n, uint8_t* out) const override
+    {
+        simfs::read(path, off, n, out);
+    }
+};
+
+// Compares the file range [off, off+len) with "zero except exts" (exts sorted
+// by offset, absolute file offsets).  Returns UINT64_MAX if equal, otherwise
+// the offset of the first difference.
+static uint64_t
+compare_sparse(const std::string& path, uint64_t off, uint64_t len,
+               const std::vector<Ext>& exts)
+{
+    static const uint64_t BLK = 1ull << 20;
+    std::vector<uint8_t> got((size_t)BLK), want((size_t)BLK);
+    size_t e0 = 0;
+    for (uint64_t b = off; b < off + len; b += BLK) {
+        uint64_t k = std::min(BLK, off + len - b);
+        bool backed = simfs::read(path, b, k, got.data());
+        while (e0 < exts.size() && exts[e0].off + exts[e0].bytes.size() <= b)
+            ++e0;
+        bool any = false;
+        for (size_t e = e0; e < exts.size() && exts[e].off < b + k; ++e) {
+            if (!any) {
+                memset(want.data(), 0, (size_t)k);
+                any = true;
+            }
+            uint64_t a = std::max(b, exts[e].off);
+            uint64_t z = std::min(b + k, exts[e].off + exts[e].bytes.size());
+            memcpy(want.data() + (a - b), exts[e].bytes.data() + (a - exts[e].off),
+                   (size_t)(z - a));
+        }
+        if (!backed && !any)
+            continue; // a hole where zeros are expected
+        if (!any)
+            memset(want.data(), 0, (size_t)k);
+        if (memcmp(got.data(), want.data(), (size_t)k) != 0) {
+            uint64_t d = 0;
+            while (got[(size_t)d] == want[(size_t)d])
+                ++d;
+            return b + d;
+        }
+    }
+    return UINT64_MAX;
+}
 
 struct Slot
 {
@@ -66,6 +136,9 @@ struct Slot
     std::string meta;  // user's metadata text ("" = none)
     bool started = false;
     std::vector<uint8_t> cycle_bytes; // raw: everything appended this cycle
+    bool big = false;                 // huge mode: cycle_exts/cycle_len instead
+    std::vector<Ext> cycle_exts;
+    uint64_t cycle_len = 0;
     std::vector<FrameM> cycle_frames;
     uint64_t next_frame_id = 0;
     int cycles = 0;
@@ -156,15 +229,17 @@ json_equal(const bigtiff::Json& a, const bigtiff::Json& b)
 static void
 check_tiff(const Slot& s, const std::string& file, bool expect_metadata_in_tiff)
 {
-    const std::vector<uint8_t>* bytes = simfs::contents(file);
-    if (!bytes)
+    if (!simfs::exists(file))
         oracle_fail("C15.file_missing", "%s: no file was written at %s",
                     s.kind.c_str(), file.c_str());
+    SimBytes sb(file);
+    const SimBytes* bytes = &sb;
     bigtiff::File t = bigtiff::parse(*bytes);
     if (!t.error.empty())
         oracle_fail("C15.invalid_bigtiff",
-                    "%s (%zu frames appended, %zu bytes): %s", file.c_str(),
-                    s.cycle_frames.size(), bytes->size(), t.error.c_str());
+                    "%s (%zu frames appended, %llu bytes): %s", file.c_str(),
+                    s.cycle_frames.size(), (unsigned long long)bytes->size(),
+                    t.error.c_str());
     if (t.ifds.size() != s.cycle_frames.size())
         oracle_fail("C15.directory_count",
                     "%s: the directory chain has %zu entries but %zu frames "
@@ -195,8 +270,27 @@ check_tiff(const Slot& s, const std::string& file, bool expect_metadata_in_tiff)
                         (unsigned long long)h, (unsigned long long)bits,
                         (unsigned long long)fmt, i, f.w, f.h, 8 * bpp(f.type),
                         (unsigned long long)want_fmt);
-        if (sc < f.pixels.size() ||
-            memcmp(bytes->data() + so, f.pixels.data(), f.pixels.size()) != 0)
+        if (f.big_n) {
+            std::vector<Ext> ex;
+            for (auto& m : f.marks)
+                ex.push_back(Ext{ so + m.first, { m.second } });
+            uint64_t d = sc < f.big_n ? so
+                                      : compare_sparse(file, so, f.big_n, ex);
+            if (d != UINT64_MAX)
+                oracle_fail("C15.wrong_pixels",
+                            "%s directory %zu: the strip (%llu bytes at %llu) "
+                            "does not return frame %zu's %llu pixel bytes "
+                            "unchanged (first difference at file offset %llu)",
+                            file.c_str(), i, (unsigned long long)sc,
+                            (unsigned long long)so, i,
+                            (unsigned long long)f.big_n, (unsigned long long)d);
+        }
+        std::vector<uint8_t> strip(f.pixels.size());
+        if (!f.big_n && sc >= f.pixels.size())
+            bytes->read(so, strip.size(), strip.data());
+        if (!f.big_n &&
+            (sc < f.pixels.size() ||
+             memcmp(strip.data(), f.pixels.data(), f.pixels.size()) != 0))
             oracle_fail("C15.wrong_pixels",
                         "%s directory %zu: the strip (%llu bytes at %llu) does "
                         "not return frame %zu's %zu pixel bytes unchanged",
@@ -260,6 +354,10 @@ struct StorHarness : Harness
     int batch(const std::string& p) const override
     {
         return p == "C16" ? 4 : 50;
+    }
+    int batch(const std::string& p, const std::string& profile) const override
+    {
+        return profile == "huge" ? 1 : batch(p);
     }
 
     bool nontrivial(const std::string& property,
@@ -347,9 +445,26 @@ struct StorHarness : Harness
             std::string kind = kinds[g.below(4)];
             if (kind == "trash" && g.chance(0.7))
                 kind = kinds[g.below(3)];
-            int shape = (int)g.below(6);
+            int shape = (int)g.below(7);
             snprintf(b, sizeof(b), "open slot=0 kind=%s", kind.c_str());
             p.ops.push_back(b);
+            if (shape == 6) {
+                // a second stream's device takes over the descriptor numbers
+                // this device has released: a stale close or write would hit
+                // a descriptor that now belongs to the other device
+                gen_cycle(g, p.ops, 0, kind, 0, false);
+                p.ops.push_back("open slot=1 kind=raw");
+                p.ops.push_back(
+                  "set slot=1 uri=abs name=other0 meta=none px=1 py=1");
+                p.ops.push_back("start slot=1");
+                p.ops.push_back("append slot=1 nf=2 w=5 h=3 t=0 vary=0 id=77");
+                if (g.chance(0.5))
+                    gen_cycle(g, p.ops, 0, kind, 1, g.chance(0.3));
+                p.ops.push_back("close slot=0");
+                p.ops.push_back("append slot=1 nf=1 w=5 h=3 t=0 vary=0 id=78");
+                p.ops.push_back("stop slot=1");
+                p.ops.push_back("close slot=1");
+            } else
             if (shape == 0) {
                 // open - close
             } else if (shape == 1) {
@@ -381,6 +496,58 @@ struct StorHarness : Harness
             // covered across plans
             std::string k = fk[g.below(11)];
             p.sets("fault", k);
+            return p;
+        }
+        if (profile == "huge") {
+            // one acquisition whose file grows past 4 GiB: every running
+            // offset leaves the 32-bit range while frames are still appended
+            std::string kind = "raw";
+            if (property == "C15")
+                kind = g.chance(0.5) ? "tiff" : "tiffjson";
+            snprintf(b, sizeof(b), "open slot=0 kind=%s", kind.c_str());
+            p.ops.push_back(b);
+            static const char* uris[] = { "rel", "filerel", "abs", "fileabs" };
+            snprintf(b, sizeof(b),
+                     "set slot=0 uri=%s name=huge0 meta=%s px=1 py=1",
+                     uris[g.below(4)],
+                     kind == "tiffjson" || g.chance(0.5) ? "json7" : "none");
+            p.ops.push_back(b);
+            p.ops.push_back("start slot=0");
+            const uint64_t GiB = 1ull << 30;
+            uint64_t target = 4 * GiB - (64ull << 20) + g.below(GiB / 2);
+            uint64_t total = 0;
+            int after = (int)g.range(1, 3); // frames after the crossing
+            uint64_t id = g.below(1000000);
+            while (after > 0) {
+                if (g.chance(0.3)) {
+                    std::string a = gen_append(g);
+                    snprintf(b, sizeof(b), a.c_str(), 0);
+                    p.ops.push_back(b);
+                    total += 4096; // rough
+                }
+                static const uint64_t mibs[] = { 96, 200, 256, 333, 512, 777, 1024 };
+                uint64_t mib = total < target ? mibs[g.below(7)]
+                                              : (g.chance(0.5) ? 1 : 64);
+                uint64_t w = 8 * g.range(512, 4096);
+                uint64_t h = std::max<uint64_t>(1, (mib << 20) / w);
+                snprintf(b, sizeof(b), "bigappend slot=0 w=%llu h=%llu id=%llu",
+                         (unsigned long long)w, (unsigned long long)h,
+                         (unsigned long long)id++);
+                p.ops.push_back(b);
+                if (total >= 4 * GiB)
+                    --after;
+                total += w * h;
+            }
+            if (g.chance(0.5)) {
+                std::string a = gen_append(g);
+                snprintf(b, sizeof(b), a.c_str(), 0);
+                p.ops.push_back(b);
+            }
+            p.ops.push_back("stop slot=0");
+            p.ops.push_back("close slot=0");
+            p.sets("mode", "huge");
+            if (g.chance(0.5))
+                p.setd("short_p", 0.3);
             return p;
         }
         // ---- fault-free cycles (C14 raw, C15 tiff / tiff-json)
@@ -478,6 +645,67 @@ struct StorHarness : Harness
                    f.pixels.size());
             frames->push_back(f);
         }
+    }
+
+    // One huge u8 frame: zero pixels except a handful of marks.  The buffer
+    // is one lazily mapped anonymous region reused by every huge frame, so
+    // the cost is what the file layer spends scanning it.
+    static enum DeviceStatusCode big_append(Slot& s, const Op& op,
+                                            std::vector<FrameM>* frames,
+                                            struct VideoFrame* hdr_out)
+    {
+        static uint8_t* region = nullptr;
+        static const uint64_t REGION = (1ull << 30) + (64ull << 20);
+        if (!region) {
+            void* m = mmap(nullptr, REGION, PROT_READ | PROT_WRITE,
+                           MAP_PRIVATE | MAP_ANONYMOUS | MAP_NORESERVE, -1, 0);
+            if (m == MAP_FAILED)
+                inconclusive("mmap_failed");
+            region = (uint8_t*)m;
+        }
+        FrameM f;
+        f.w = (uint32_t)std::max<int64_t>(8, op.i("w", 8192)) & ~7u;
+        uint64_t maxh = ((1ull << 30) / f.w);
+        f.h = (uint32_t)std::max<int64_t>(
+          1, std::min<int64_t>((int64_t)maxh, op.i("h", 8192)));
+        f.type = SampleType_u8;
+        Rng r(mix64((uint64_t)op.i("id"), 0xb16f));
+        f.frame_id = s.next_frame_id++;
+        f.hw_id = r.next() >> 1;
+        f.ts_hw = r.next() >> 1;
+        f.ts_rt = r.next() >> 2;
+        f.big_n = (uint64_t)f.w * f.h;
+        f.marks.push_back({ 0, (uint8_t)(1 + r.below(255)) });
+        f.marks.push_back({ f.big_n - 1, (uint8_t)(1 + r.below(255)) });
+        for (int i = 0; i < 6; ++i)
+            f.marks.push_back({ r.below(f.big_n), (uint8_t)(1 + r.below(255)) });
+        std::sort(f.marks.begin(), f.marks.end());
+        // positions drawn twice keep the later value
+        for (size_t i = 1; i < f.marks.size();)
+            if (f.marks[i].first == f.marks[i - 1].first)
+                f.marks.erase(f.marks.begin() + (long)i - 1);
+            else
+                ++i;
+        struct VideoFrame* hdr = (struct VideoFrame*)region;
+        memset(hdr, 0, sizeof(*hdr));
+        hdr->bytes_of_frame = sizeof(struct VideoFrame) + f.big_n; // w % 8 == 0
+        hdr->shape.dims = { 1, f.w, f.h, 1 };
+        hdr->shape.strides = { 1, 1, (int64_t)f.w, (int64_t)f.w * f.h };
+        hdr->shape.type = SampleType_u8;
+        hdr->frame_id = f.frame_id;
+        hdr->hardware_frame_id = f.hw_id;
+        hdr->timestamps.hardware = f.ts_hw;
+        hdr->timestamps.acq_thread = f.ts_rt;
+        for (auto& m : f.marks)
+            hdr->data[m.first] = m.second;
+        *hdr_out = *hdr;
+        enum DeviceStatusCode rc = storage_append(
+          s.dev, hdr,
+          (const struct VideoFrame*)(region + hdr->bytes_of_frame));
+        for (auto& m : f.marks)
+            hdr->data[m.first] = 0;
+        frames->push_back(f);
+        return rc;
     }
 
     // A write failure as the device sees it: a pwrite returned -1, or the
@@ -643,21 +871,34 @@ struct StorHarness : Harness
                 s.started = true;
                 s.cycle_bytes.clear();
                 s.cycle_frames.clear();
+                s.cycle_exts.clear();
+                s.cycle_len = 0;
+                s.big = plan.gets("mode") == "huge";
                 s.next_frame_id = 0;
                 probe("n.starts");
-            } else if (op.name == "append") {
+            } else if (op.name == "append" || op.name == "bigappend") {
                 if (!s.dev || !s.started)
+                    continue;
+                const bool bigop = op.name == "bigappend";
+                if (bigop && !s.big)
                     continue;
                 std::vector<uint8_t> pk;
                 std::vector<FrameM> fr;
-                build_packet(s, op, &pk, &fr);
-                // 8-byte aligned copy, exact size (ASan guards the end)
-                uint8_t* buf = (uint8_t*)aligned_alloc(8, (pk.size() + 7) & ~7ull);
-                memcpy(buf, pk.data(), pk.size());
-                enum DeviceStatusCode rc = storage_append(
-                  s.dev, (const struct VideoFrame*)buf,
-                  (const struct VideoFrame*)(buf + pk.size()));
-                free(buf);
+                enum DeviceStatusCode rc;
+                struct VideoFrame bighdr;
+                if (bigop) {
+                    rc = big_append(s, op, &fr, &bighdr);
+                } else {
+                    build_packet(s, op, &pk, &fr);
+                    // 8-byte aligned copy, exact size (ASan guards the end)
+                    uint8_t* buf =
+                      (uint8_t*)aligned_alloc(8, (pk.size() + 7) & ~7ull);
+                    memcpy(buf, pk.data(), pk.size());
+                    rc = storage_append(
+                      s.dev, (const struct VideoFrame*)buf,
+                      (const struct VideoFrame*)(buf + pk.size()));
+                    free(buf);
+                }
                 bool wf = pwrite_failed_since(ev0);
                 enum DeviceState st = storage_get_state(s.dev);
                 if (wf) {
@@ -683,7 +924,26 @@ struct StorHarness : Harness
                     s.configured = false;
                     continue;
                 }
-                s.cycle_bytes.insert(s.cycle_bytes.end(), pk.begin(), pk.end());
+                if (!s.big) {
+                    s.cycle_bytes.insert(s.cycle_bytes.end(), pk.begin(),
+                                         pk.end());
+                } else if (!bigop) {
+                    s.cycle_exts.push_back(Ext{ s.cycle_len, pk });
+                    s.cycle_len += pk.size();
+                } else {
+                    const FrameM& f = fr[0];
+                    std::vector<uint8_t> hb(sizeof(bighdr));
+                    memcpy(hb.data(), &bighdr, sizeof(bighdr));
+                    s.cycle_exts.push_back(Ext{ s.cycle_len, hb });
+                    for (auto& m : f.marks)
+                        s.cycle_exts.push_back(
+                          Ext{ s.cycle_len + sizeof(bighdr) + m.first,
+                               { m.second } });
+                    s.cycle_len += bighdr.bytes_of_frame;
+                    probe("reach.huge_frame_appended");
+                }
+                if (s.big && s.cycle_len > (1ull << 32))
+                    probe("reach.append_beyond_4GiB");
                 for (auto& f : fr)
                     s.cycle_frames.push_back(f);
                 probe("n.frames_appended", fr.size());
@@ -698,7 +958,26 @@ struct StorHarness : Harness
                 if (c->faults)
                     continue;
                 // ---- content oracles (fault-free class only)
-                if (s.kind == "raw") {
+                if (s.kind == "raw" && s.big) {
+                    uint64_t sz = simfs::size(s.path);
+                    if (sz == UINT64_MAX)
+                        oracle_fail("C14.file_missing",
+                                    "raw: nothing was written at %s",
+                                    s.path.c_str());
+                    uint64_t d = compare_sparse(
+                      s.path, 0, std::max(sz, s.cycle_len), s.cycle_exts);
+                    if (sz != s.cycle_len || d != UINT64_MAX)
+                        oracle_fail(
+                          "C14.file_differs",
+                          "raw: %s holds %llu bytes but the %llu bytes "
+                          "appended in this acquisition were expected; first "
+                          "difference at byte %llu",
+                          s.path.c_str(), (unsigned long long)sz,
+                          (unsigned long long)s.cycle_len,
+                          (unsigned long long)(d == UINT64_MAX
+                                                 ? std::min(sz, s.cycle_len)
+                                                 : d));
+                } else if (s.kind == "raw") {
                     const std::vector<uint8_t>* f = simfs::contents(s.path);
                     if (!f)
                         oracle_fail("C14.file_missing",
@@ -856,7 +1135,8 @@ struct Reg
             "EINTR/EAGAIN, persistent EIO/ENOSPC, create/flock/close failures",
             "directories used by std::filesystem in side-by-side-tiff.cpp: a "
             "real per-run scratch directory",
-            "frames: generated packets (random shapes, ids, timestamps, pixels)"
+            "frames: generated packets (random shapes, ids, timestamps, "
+            "pixels); files beyond 64 MiB are held sparsely by the file layer"
         };
         CheckSpec c;
         c.harness = "stor";
@@ -874,8 +1154,12 @@ struct Reg
           "acquisitions each to a fresh path, URI spelling, packet grouping, "
           "frame shapes, short-write probability, zero-write pattern); "
           "non-trivial = at least one acquisition's file was compared and at "
-          "least one frame appended; distinct = distinct run fingerprint";
-        c.profiles = { { "raw", 30000, 600000, false } };
+          "least one frame appended; distinct = distinct run fingerprint. "
+          "Profile huge: one acquisition of 4-5.5 GiB (huge sparse frames "
+          "mixed with small packets) so that the running offset leaves the "
+          "32-bit range while frames are still appended";
+        c.profiles = { { "huge", 16, 160, false },
+                       { "raw", 30000, 600000, false } };
         c.assumptions = {
             "every acquisition of a device writes to a fresh path (files are "
             "created without truncation; same-path reuse is outside the "
@@ -884,7 +1168,7 @@ struct Reg
             "(failing ones belong to C16)"
         };
         c.reach_probes = { "fault.pwrite_short", "fault.pwrite_zero",
-                           "n.cycles_checked" };
+                           "n.cycles_checked", "reach.append_beyond_4GiB" };
         register_check(c);
 
         c.property = "C15";
@@ -899,8 +1183,11 @@ struct Reg
           "acquisitions, shapes, sample types, packet grouping, metadata, "
           "pixel scale, URI spelling, short writes); non-trivial = at least "
           "one file was parsed and checked; distinct = distinct run "
-          "fingerprint";
-        c.profiles = { { "tiff", 25000, 500000, false } };
+          "fingerprint. Profile huge: one file of 4-5.5 GiB (huge sparse "
+          "frames mixed with small packets): directories, strips and "
+          "descriptions beyond the 4 GiB boundary";
+        c.profiles = { { "huge", 16, 160, false },
+                       { "tiff", 25000, 500000, false } };
         c.assumptions = {
             "only the stated clauses are judged (header, chain length and "
             "termination, offsets inside the file, no overlap, "
@@ -908,7 +1195,8 @@ struct Reg
             "with ids/timestamps, metadata placement); tag order, optional "
             "tags and resolution values are not"
         };
-        c.reach_probes = { "n.cycles_checked", "fault.pwrite_short" };
+        c.reach_probes = { "n.cycles_checked", "fault.pwrite_short",
+                           "reach.append_beyond_4GiB" };
         register_check(c);
 
         c.property = "C16";
@@ -927,7 +1215,7 @@ struct Reg
           "family's call is swept (evaluations counts plans; "
           "n.fault_subruns counts executions); non-trivial = at least one "
           "faulty sub-run executed; distinct = distinct run fingerprint";
-        c.profiles = { { "sweep", 8000, 160000, true } };
+        c.profiles = { { "sweep", 3000, 60000, true } };
         c.assumptions = {
             "a 'write failure' is a pwrite that returns -1 or three "
             "consecutive zero-length writes inside one write-all loop",
